@@ -465,3 +465,17 @@ func (r *runState) digestOrd(v value) *smt.Term {
 	}
 	return nil
 }
+
+func init() {
+	register(symPkg+"FSLog", func(fr *frame, args []value) value {
+		var out []value
+		for _, l := range fr.run().FS().opLog {
+			out = append(out, l)
+		}
+		return out
+	})
+	register(symPkg+"Class", func(fr *frame, args []value) value {
+		fr.run().class = cstr(args[0])
+		return nil
+	})
+}
